@@ -565,6 +565,24 @@ def apply_op(sess, op, trace, observe=True, prev=None):
             target = sess.root if not op[1] else os.path.join(sess.root, 'elsewhere')
             os.makedirs(target, exist_ok=True)
             os.chdir(target)
+        elif kind == 'reattach':
+            # the archive is REPLACED by another one of the same kind (elsewhere) through the public f.archive(obj), while archiving is on
+            if backend_archived(sess.cfg['backend']) and cache.archived() and not (sess.cfg.get('attach_later') and not getattr(sess, 'attached', False)):
+                sess.nre = getattr(sess, 'nre', 0) + 1
+                f.archive(open_backend(sess.cfg['backend'], sess.root, 'R%d' % sess.nre, cached=False))
+                st.result = 'reattached'
+        elif kind == 'adel':
+            # somebody else (another session) removes entries from the attached archive
+            if cache.archived():
+                for i in op[1]:
+                    a, k = sess.call_args(['call', i, 0])
+                    kk = f.key(*a, **k)
+                    try:
+                        hash(kk)
+                    except TypeError:
+                        continue
+                    cache.archive.pop(kk, None)
+                st.result = 'deleted'
         elif kind == 'akeys':
             # somebody lists the stored keys (no values read)
             st.result = len(list(cache.archive.keys() if cache.archived() else cache.keys()))
